@@ -27,3 +27,16 @@ pub open spec fn matches_ok(ms: Seq<WordMatch>) -> bool { ms.len() <= 0x10_0000 
 pub open spec fn tm_post(rtext: &TextRef, qtext: &TextRef, ret: (Vec<WordMatch>, Vec<WordMatch>)) -> bool {
     matches_for_text(ret.0@, rtext) && matches_for_text(ret.1@, qtext) && matches_ok(ret.0@) && matches_ok(ret.1@)
 }
+// ---- recall side of text_match (C03 C13): TM-some.  The first query word is an exact prefix of (while still being typed), or
+// the same characters as, word j of the record text ==> the record gets at least one match
+pub open spec fn tchars(t: &TextRef, k: int) -> Seq<char> { t.chars@.subrange(t.words@[k].slice.0 as int, t.words@[k].slice.1 as int) }
+pub open spec fn starts_with(w: Seq<char>, p: Seq<char>) -> bool { p.len() <= w.len() && forall|t: int| 0 <= t < p.len() ==> w[t] == p[t] }
+pub open spec fn pair_prefix(rtext: &TextRef, qtext: &TextRef, j: int) -> bool {
+    0 <= j < rtext.words@.len() && qtext.words@.len() >= 1 && !qtext.words@[0].fin && starts_with(tchars(rtext, j), tchars(qtext, 0))
+}
+pub open spec fn pair_equal(rtext: &TextRef, qtext: &TextRef, j: int) -> bool {
+    0 <= j < rtext.words@.len() && qtext.words@.len() >= 1 && tchars(rtext, j).len() == tchars(qtext, 0).len() && starts_with(tchars(rtext, j), tchars(qtext, 0))
+}
+pub open spec fn tm_some(rtext: &TextRef, qtext: &TextRef, ret: (Vec<WordMatch>, Vec<WordMatch>)) -> bool {
+    (exists|j: int| #[trigger] pair_prefix(rtext, qtext, j) || pair_equal(rtext, qtext, j)) ==> ret.0@.len() >= 1
+}
